@@ -9,6 +9,8 @@ cd "$(dirname "$0")" || exit 2
 REPO=/repo
 if ! git -C "$REPO" diff --quiet; then echo "refusing: $REPO has uncommitted changes" >&2; exit 2; fi
 trap 'git -C "$REPO" checkout -- . 2>/dev/null' EXIT INT TERM
+# evidence written while a mutant is applied must not replace the evidence of the real tree
+VERIF_EVIDENCE_DIR="$(pwd)/sim/scratch/evidence-mutants"; export VERIF_EVIDENCE_DIR; mkdir -p "$VERIF_EVIDENCE_DIR"
 patches=""
 if [ $# -eq 0 ]; then
     patches="$(ls mutants/*.diff 2>/dev/null) $(ls seeded/*/patch.diff 2>/dev/null)"
@@ -18,6 +20,7 @@ else
     done
 fi
 ok=0; missed=0; bad=0
+RES="$(pwd)/sim/scratch/mutant-results.tsv"; : > "$RES"
 for p in $patches; do
     case "$p" in
         seeded/*) prop=$(python3 -c "import json,sys;print(json.load(open('$(dirname "$p")/meta.json'))['property'])") ;;
@@ -35,10 +38,10 @@ for p in $patches; do
     if [ $code -eq 1 ] && [ -n "$replay" ]; then
         ./check --replay "$replay" >/dev/null 2>&1; rc=$?
         clause=$(printf '%s\n' "$out" | grep -m1 -E "violates|fails again|abort in|hang in" | cut -c1-160)
-        if [ $rc -eq 1 ]; then echo "CAUGHT $p by $prop, replays: $clause"; ok=$((ok+1));
+        if [ $rc -eq 1 ]; then echo "CAUGHT $p by $prop, replays: $clause"; ok=$((ok+1)); printf '%s\t%s\tcaught\t%s\n' "$p" "$prop" "$clause" >> "$RES";
         else echo "CAUGHT $p by $prop but replay exit=$rc: $clause"; bad=$((bad+1)); fi
     else
-        echo "MISSED $p by $prop (exit $code)"; printf '%s\n' "$out" | tail -3
+        echo "MISSED $p by $prop (exit $code)"; printf '%s\n' "$out" | tail -3; printf '%s\t%s\tmissed\t\n' "$p" "$prop" >> "$RES"
         missed=$((missed+1))
     fi
     git -C "$REPO" checkout -- .
